@@ -347,6 +347,9 @@ type RTx struct {
 	// VersionBytes22: the modified pages other than page 1 carry the bytes 02 02 at offset 18 (where page 1 keeps its
 	// write/read version, which is how a WAL database is recognised); any b-tree or overflow page may.
 	VersionBytes22 bool
+	// FreeLeaves (with NewSize >= old size + 2, no spill): the appended pages except the last are free-list leaves
+	// that SQLite never writes; the last appended page reaches the file as a zero page when the commit extends it.
+	FreeLeaves bool
 }
 
 // RTxResult is what the simulator knows after a program ran.
@@ -664,6 +667,7 @@ func (c *Conn) RunRTx(tx RTx, cur *oracle.Image) (res RTxResult) {
 	_ = hdrWritten
 
 	// Appended pages (never journalled) and the first page of a new database.
+	holes := map[uint32]bool{}
 	if origSize == 0 {
 		dirty[1] = MakePage1(c.PageSize, c.ver(1, nil, p1v, unc), newSize, wal, cc)
 	}
@@ -675,6 +679,16 @@ func (c *Conn) RunRTx(tx RTx, cur *oracle.Image) (res RTxResult) {
 			dirty[p] = make([]byte, c.PageSize) // never written; placeholder
 			continue
 		}
+		if tx.FreeLeaves {
+			// free-list leaves allocated and freed inside the transaction are never written (PGHDR_DONT_WRITE); at
+			// commit the file is extended to the new size by one zero page at its end. Readers see zeros.
+			if p < newSize {
+				holes[p] = true
+				continue
+			}
+			dirty[p] = make([]byte, c.PageSize)
+			continue
+		}
 		dirty[p] = MakePage(c.PageSize, p, c.ver(p, nil, p1v, unc))
 	}
 	// Build the intended image.
@@ -683,6 +697,11 @@ func (c *Conn) RunRTx(tx RTx, cur *oracle.Image) (res RTxResult) {
 	}
 	for uint32(len(next.Pages)) < newSize {
 		next.Pages = append(next.Pages, nil)
+	}
+	for p := range holes {
+		if p <= newSize {
+			next.Pages[p-1] = make([]byte, c.PageSize)
+		}
 	}
 	for p, b := range dirty {
 		if p <= newSize {
